@@ -26,12 +26,12 @@ impl Ix {
                 if len == 0 {
                     0
                 } else {
-                    ((f as usize) * len) >> 16
+                    ((f as u128 * len as u128) >> 16) as usize
                 }
             }
             Ix::Last => len.saturating_sub(1),
             Ix::End => len,
-            Ix::Past(k) => len + 1 + k as usize,
+            Ix::Past(k) => len.saturating_add(1 + k as usize),
             Ix::Huge(k) => HUGE[k as usize % HUGE.len()],
         }
     }
